@@ -148,7 +148,7 @@ def make_groups(quick):
     n = 0
     idx = list(range(len(P)))
     pairs = list(itertools.permutations(idx, 2))
-    triples = list(itertools.permutations(idx[:10] if quick else idx[:16], 3))
+    triples = list(itertools.permutations(idx[:10] if quick else idx, 3))
     for combo in pairs + triples:
         name = "W%d" % n
         n += 1
